@@ -354,7 +354,10 @@ func isolationMatrix() []isoCell {
 	impOnly("method-response-array", &jElem{Service: &jService{Name: "Things", BasePath: "/iso/v1", Methods: []*jMethod{{Name: "GetThing", HTTPMethod: "GET", Path: "/things", HasRes: true, Res: []*jF{fld("shareds", tArr(sharedRef()))}}}}})
 	impOnly("topic-message", &jElem{Topic: &jTopic{Name: "Things", Type: "publish", Messages: []*jTopicMsg{{Name: "SendThing", Fields: []*jF{fld("levels", tMap(levelRef()))}}}}})
 	// both packages declare a type of the same simple name; each reference must reach the package it names
-	for _, form := range []struct{ id, ref, enumRef string; imports []*jImport }{
+	for _, form := range []struct {
+		id, ref, enumRef string
+		imports          []*jImport
+	}{
 		{"full", "other.v1.Shared", "other.v1.Level", []*jImport{{Path: "other.v1"}}},
 		{"short", "other.Shared", "other.Level", []*jImport{{Path: "other.v1"}}},
 		{"alias", "oth.Shared", "oth.Level", []*jImport{{Path: "other.v1", Alias: "oth"}}},
